@@ -1,7 +1,8 @@
 // Harness for C04, execution stream: runs the real hercules.NewPipeline(repo) ... Run(commits) on synthetic
 // in-memory repositories with hibernation distance 0..4 and one or two recording leaf items that implement
 // Hibernate/Boot (core.HibernateablePipelineItem) and Dispose (core.DisposablePipelineItem) and fork by copy
-// with a fresh instance id per clone.  Every call an instance receives is logged:
+// with a fresh instance id per clone - in every second generated case (field fc) through the public helper
+// hercules.ForkCopyPipelineItem, otherwise by constructing the clones themselves.  Every call an instance receives is logged:
 //
 //	(root it id)          the deployed item (logged by the harness before Run)
 //	(fork it src (ids))   src.Fork(n) returned the clones ids
@@ -63,6 +64,10 @@ type probe struct {
 	rec *recorder
 	it  int // which deployed item this instance descends from
 	id  int
+	// fc: Fork goes through hercules.ForkCopyPipelineItem (the helper TreeDiff, TicksSinceStart, CouplesAnalysis and
+	// plugins fork with) instead of building the clones by hand; the ids the log reports are read back from the clones
+	// the helper returned, so clones that are one and the same object show as one instance id created twice
+	fc bool
 }
 
 func (p *probe) Name() string                                             { return fmt.Sprintf("Probe%d", p.it) }
@@ -93,10 +98,22 @@ func (p *probe) Consume(deps map[string]interface{}) (map[string]interface{}, er
 func (p *probe) Fork(n int) []hercules.PipelineItem {
 	clones := make([]hercules.PipelineItem, n)
 	ids := make([]int, n)
-	for i := range clones {
-		ids[i] = p.rec.nextID
-		p.rec.nextID++
-		clones[i] = &probe{rec: p.rec, it: p.it, id: ids[i]}
+	if p.fc {
+		clones = hercules.ForkCopyPipelineItem(p, n)
+		for _, cl := range clones {
+			cl.(*probe).id = p.rec.nextID
+			p.rec.nextID++
+		}
+		// what the clones ARE, not what was assigned: a helper that hands out one object n times gives n equal ids
+		for i, cl := range clones {
+			ids[i] = cl.(*probe).id
+		}
+	} else {
+		for i := range clones {
+			ids[i] = p.rec.nextID
+			p.rec.nextID++
+			clones[i] = &probe{rec: p.rec, it: p.it, id: ids[i]}
+		}
 	}
 	p.ev("fork", Ints(ids))
 	return clones
@@ -141,12 +158,14 @@ type commitSpec struct {
 }
 
 type caseIn struct {
-	Kind    string
-	Dist    int
-	NItems  int
-	Opts    int // optDumpPlan | optPrintActions
-	TMode   int // 0: timestamps grow with the position; else planlib.TimesFor(TMode) seeded by the number of commits
-	Commits []commitSpec
+	Kind   string
+	Dist   int
+	NItems int
+	Opts   int // optDumpPlan | optPrintActions
+	// ForkCopy: the probes fork through hercules.ForkCopyPipelineItem (field fc; every second generated case)
+	ForkCopy bool
+	TMode    int // 0: timestamps grow with the position; else planlib.TimesFor(TMode) seeded by the number of commits
+	Commits  []commitSpec
 	// large cases: Commits is generated from these, the log is judged as a plan over instance ids
 	Scale       string
 	Size, HMode int
@@ -187,7 +206,7 @@ func runCase(in caseIn) (obs []Sx, nt bool, fatal error) {
 	pipeline := hercules.NewPipeline(repo)
 	leaves := make([]*probe, in.NItems)
 	for k := range leaves {
-		leaves[k] = &probe{rec: rec, it: k, id: rec.nextID}
+		leaves[k] = &probe{rec: rec, it: k, id: rec.nextID, fc: in.ForkCopy}
 		rec.nextID++
 		pipeline.AddItem(leaves[k])
 		leaves[k].ev("root")
@@ -245,15 +264,20 @@ func runCase(in caseIn) (obs []Sx, nt bool, fatal error) {
 }
 
 func (in caseIn) fields() []Sx {
+	fc := []Sx{}
+	if in.ForkCopy {
+		fc = append(fc, T("fc", I(1))) // absent = forks built by hand (older corpus lines)
+	}
 	if in.Scale != "" {
-		return []Sx{T("shape", A(in.Scale)), T("size", I(in.Size)), T("hmode", I(in.HMode)), T("tmode", I(in.TMode)),
-			T("gseed", I(int(in.GSeed))), T("n", I(len(in.Commits))), T("dist", I(in.Dist)), T("nitems", I(in.NItems)), T("opts", I(in.Opts))}
+		return append([]Sx{T("shape", A(in.Scale)), T("size", I(in.Size)), T("hmode", I(in.HMode)), T("tmode", I(in.TMode)),
+			T("gseed", I(int(in.GSeed))), T("n", I(len(in.Commits))), T("dist", I(in.Dist)), T("nitems", I(in.NItems)), T("opts", I(in.Opts))}, fc...)
 	}
 	cs := make([]Sx, len(in.Commits))
 	for i, c := range in.Commits {
 		cs[i] = L(I(c.ID), Ints(c.Parents))
 	}
-	return []Sx{T("dist", I(in.Dist)), T("nitems", I(in.NItems)), T("opts", I(in.Opts)), T("tmode", I(in.TMode)), T("commits", cs...)}
+	fs := append([]Sx{T("dist", I(in.Dist)), T("nitems", I(in.NItems)), T("opts", I(in.Opts)), T("tmode", I(in.TMode))}, fc...)
+	return append(fs, T("commits", cs...))
 }
 
 // scaleCase: a large history of planlib.ScaleGraph (the hashes are real, so their order is whatever they give; the
@@ -282,9 +306,13 @@ func parseCase(s Sx) caseIn {
 	if f, ok := s.Field("tmode"); ok {
 		in.TMode = f.Args()[0].Int()
 	}
+	if f, ok := s.Field("fc"); ok {
+		in.ForkCopy = f.Args()[0].Int() != 0
+	}
 	if shape, size, _, tmode, gseed, ok := pl.ParseScale(s); ok {
 		sc := scaleCase(shape, size, tmode, gseed, in.Dist, in.Opts)
 		sc.NItems = in.NItems
+		sc.ForkCopy = in.ForkCopy
 		return sc
 	}
 	if f, ok := s.Field("commits"); ok {
@@ -299,9 +327,17 @@ func parseCase(s Sx) caseIn {
 	return in
 }
 
+// generated cases alternate between the two ways of forking (no draw from the PRNG: the histories stay what they were)
+var generating bool
+var generated int
+
 func emit(c *Config, in caseIn) {
 	if len(in.Commits) == 0 {
 		return
+	}
+	if generating {
+		in.ForkCopy = generated%2 == 1
+		generated++
 	}
 	obs, nt, fatal := runCase(in)
 	if fatal != nil {
@@ -421,6 +457,7 @@ func main() {
 		}
 		return
 	}
+	generating = true
 	r := c.Rng
 	opts := func() int {
 		o := 0
